@@ -23,7 +23,7 @@ RULE = ('Generated: rule-conforming antennas over real ground: 1..3 media (eps 1
 BUDGET = {'quick': {'examples': 700, 'wall': 220}, 'thorough': {'examples': 20000, 'wall': 1500}}
 ASSUMPTIONS = ['theta = 90 deg exactly is avoided (the program places that reflection point at 1e5 m by definition)',
                'gains compared where they exceed -100 dB']
-LABEL_FLOORS = {'media>=2': 0.4, 'radials': 0.08, 'boundary-crossed': 0.2, 'circular': 0.2, 'loaded': 0.3, 'load-on-gnd': 0.05}
+LABEL_FLOORS = {'media>=2': 0.4, 'radials': 0.08, 'boundary-crossed': 0.2, 'circular': 0.2, 'loaded': 0.3, 'load-on-gnd': 0.03}
 
 TH = (2.5, 5.0, 18)       # 2.5 .. 87.5
 PH = (0.0, 30.0, 12)
